@@ -14,7 +14,7 @@ use crate::peers::{Act, HttpPeer, Script, Seen};
 use crate::runner::{violation, RunCtx, RunReport, Stats, Verdict};
 use crate::tlspeer::{self, ConnectProxy, ProxyLog, TlsLog, TlsPeer};
 
-pub const CELLS: u64 = 4 * 2 * 2 * 2 * 3 * 3 * 4;
+pub const CELLS: u64 = 4 * 2 * 2 * 2 * 4 * 3 * 5;
 
 #[derive(Clone, Copy, Debug, PartialEq, Eq)]
 enum Chain {
@@ -39,6 +39,10 @@ enum Place {
     /// the session waives both checks; the request sets both flags explicitly to the cell's values
     /// (an explicit `false` on the request must win over the session's `true`)
     Override,
+    /// on the session, configured twice: `accept_invalid_certs(true)` and then the cell's value; the
+    /// hostname flag is only touched when the cell waives the name check (so a side effect of the first
+    /// call is never papered over by an explicit `false`)
+    Toggle,
 }
 
 const OTHER_CA_PEM: &str = include_str!("../../../certs/otherca.pem");
@@ -62,6 +66,9 @@ enum Root {
     /// an unrelated CA; in these cells another session that added *our* CA (same flags) completes a
     /// handshake first, so any state shared between sessions shows up as a wrongly accepted peer
     OtherAfterDecoy,
+    /// the very certificate the peer presents is added as a root: this may or may not make the chain
+    /// valid (the back ends differ), it never excuses a wrong name or an expired certificate
+    Presented,
 }
 
 fn ok_script(body: &str) -> Script {
@@ -83,10 +90,10 @@ pub fn scenario(g: &mut G, ctx: &RunCtx) -> RunReport {
     let name_matches = take(2) == 0;
     let accept_certs = take(2) == 1;
     let accept_hosts = take(2) == 1;
-    let root = [Root::None, Root::Ours, Root::OtherAfterDecoy][take(3) as usize];
+    let root = [Root::None, Root::Ours, Root::OtherAfterDecoy, Root::Presented][take(4) as usize];
     let root_added = root != Root::None;
     let route = [Route::Direct, Route::ViaConnect, Route::HttpsProxy][take(3) as usize];
-    let place = [Place::Session, Place::Request, Place::Sibling, Place::Override][take(4) as usize];
+    let place = [Place::Session, Place::Request, Place::Sibling, Place::Override, Place::Toggle][take(5) as usize];
     let fixture = format!(
         "{}{}",
         match chain {
@@ -102,6 +109,8 @@ pub fn scenario(g: &mut G, ctx: &RunCtx) -> RunReport {
     // the unrelated CA is the issuer of the "unknown issuer" fixtures: adding it makes exactly those chains valid
     let chain_ok = eff_root && ((chain == Chain::ToAddedRoot && root == Root::Ours) || (chain == Chain::UnknownIssuer && root == Root::OtherAfterDecoy));
     let want_ok = eff_certs || (chain_ok && (name_matches || eff_hosts));
+    // with the presented certificate as the added root only the refusals are decided
+    let undecided = eff_root && root == Root::Presented && !eff_certs && chain != Chain::Expired && (name_matches || eff_hosts);
 
     let sim = Sim::new(ctx.sim_config());
     let seen = Arc::new(Mutex::new(Seen::default()));
@@ -177,7 +186,12 @@ pub fn scenario(g: &mut G, ctx: &RunCtx) -> RunReport {
             Route::HttpsProxy => pb = pb.http_proxy(url::Url::parse("https://proxy.test:3129").unwrap()),
         }
         session.proxy_settings(pb.build());
-        let my_root = || if root == Root::Ours { cert_of(tlspeer::CA_PEM) } else { cert_of(OTHER_CA_PEM) };
+        let presented_pem = tlspeer::fixture(&fixture).0;
+        let my_root = || match root {
+            Root::Ours => cert_of(tlspeer::CA_PEM),
+            Root::Presented => cert_of(presented_pem),
+            _ => cert_of(OTHER_CA_PEM),
+        };
         let mut decoy_ok = true;
         if root == Root::OtherAfterDecoy {
             // another session, same flags, OUR root: completes a handshake before the request under test
@@ -194,6 +208,16 @@ pub fn scenario(g: &mut G, ctx: &RunCtx) -> RunReport {
         if place == Place::Override {
             session.danger_accept_invalid_certs(true);
             session.danger_accept_invalid_hostnames(true);
+        }
+        if place == Place::Toggle {
+            session.danger_accept_invalid_certs(true);
+            session.danger_accept_invalid_certs(accept_certs);
+            if accept_hosts {
+                session.danger_accept_invalid_hostnames(true);
+            }
+            if root_added {
+                session.add_root_certificate(my_root());
+            }
         }
         if place == Place::Session {
             session.danger_accept_invalid_certs(accept_certs);
@@ -235,6 +259,7 @@ pub fn scenario(g: &mut G, ctx: &RunCtx) -> RunReport {
     let verdict = match &out.result {
         None => violation("hang", "torn down"),
         Some(Err(m)) => violation("panic", m.clone()),
+        Some(Ok(_)) if undecided => Verdict::Pass,
         Some(Ok(res)) => match (want_ok, res) {
             (true, Ok((200, b))) if b == b"secret" => Verdict::Pass,
             (true, other) => violation(
